@@ -27,8 +27,9 @@ type c18Case struct {
 }
 
 type c18Dir struct {
-	Path string `json:"path"` // relative to the sandbox
-	Root bool   `json:"root"` // has regex-assembly (with distinct content)
+	Path string `json:"path"`           // relative to the sandbox
+	Root bool   `json:"root"`           // has regex-assembly (with distinct content)
+	Link bool   `json:"link,omitempty"` // its regex-assembly is a symbolic link to a directory next to it
 }
 
 var c18Grammar = regexp.MustCompile(`^(\d{6})(?:-chain(\d+))?(?:\.ra)?$`)
@@ -231,6 +232,13 @@ func c18Root(env *core.Env, c *c18Case) core.Verdict {
 				"regex-assembly/932101.ra":      "##!> cmdline unix\nab\n##!<\n",
 				"regex-assembly/toolchain.yaml": cfg.yaml(),
 				"regex-assembly/include/":       "",
+			}
+			if d.Link {
+				lt := sut.Tree{"regex-assembly": sut.SymlinkPrefix + "assembly-kept-elsewhere"}
+				for k, s := range t {
+					lt[strings.Replace(k, "regex-assembly/", "assembly-kept-elsewhere/", 1)] = s
+				}
+				t = lt
 			}
 			if err := t.Write(full); err != nil {
 				return core.Incon("cannot write: %v", err)
@@ -529,10 +537,17 @@ func c18Cases(env *core.Env, rng *rand.Rand) []core.Case {
 	for i := 0; i < n; i++ {
 		c := &c18Case{Kind: "root", Abs: core.Chance(rng, 1, 2)}
 		outerIsRoot := core.Chance(rng, 4, 5)
-		c.Dirs = append(c.Dirs, c18Dir{"outer", outerIsRoot}, c18Dir{"outer/a", false}, c18Dir{"outer/a/b", false},
-			c18Dir{"outer/a/b/inner", core.Chance(rng, 2, 3)}, c18Dir{"outer/a/b/inner/c", false}, c18Dir{"outer/a/b/inner/c/d", core.Chance(rng, 1, 4)},
-			c18Dir{"outer/a/b/inner/c/d/e", false}, c18Dir{"beside", false}, c18Dir{"beside/x/y", false}, c18Dir{"outer/rules", false},
-			c18Dir{"outer/a/other", core.Chance(rng, 1, 3)})
+		c.Dirs = append(c.Dirs, c18Dir{Path: "outer", Root: outerIsRoot}, c18Dir{Path: "outer/a", Root: false}, c18Dir{Path: "outer/a/b", Root: false},
+			c18Dir{Path: "outer/a/b/inner", Root: core.Chance(rng, 2, 3)}, c18Dir{Path: "outer/a/b/inner/c", Root: false}, c18Dir{Path: "outer/a/b/inner/c/d", Root: core.Chance(rng, 1, 4)},
+			c18Dir{Path: "outer/a/b/inner/c/d/e", Root: false}, c18Dir{Path: "beside", Root: false}, c18Dir{Path: "beside/x/y", Root: false}, c18Dir{Path: "outer/rules", Root: false},
+			c18Dir{Path: "outer/a/other", Root: core.Chance(rng, 1, 3)})
+		if i%4 == 1 {
+			for k := range c.Dirs {
+				if c.Dirs[k].Root && core.Chance(rng, 1, 2) {
+					c.Dirs[k].Link = true // regex-assembly is a link to a directory
+				}
+			}
+		}
 		starts := []string{"outer", "outer/a", "outer/a/b", "outer/a/b/inner", "outer/a/b/inner/c", "outer/a/b/inner/c/d", "outer/a/b/inner/c/d/e", "beside", "beside/x/y",
 			"outer/rules", "outer/regex-assembly", "outer/regex-assembly/include", "outer/a/b/inner/regex-assembly", "outer/a/nonexistent/deeper", "outer/a/b/inner/c/missing",
 			"outer/a/other", "outer/a/other/z", "", "", "outer/a/b/inner/c/d/e/../../..", "outer/a/b/../b/inner"}
@@ -558,7 +573,7 @@ func init() {
 		ID:    "C18",
 		Level: "fault_enumeration",
 		Rule: "(1) grammar table, enumerated: arguments 932100-chainK for every K in 0..300 (every seventh with .ra), offsets at and beyond uint8/uint16/uint32/uint64 (2^64-1, 2^64, 2^64+1, 20 and 23 digits), leading zeros, ids of 5/7 digits, trailing junk, one arbitrary character in place of the extension's dot, .raa/.ra.ra, blanks, signs, upper case, non-ASCII digits, path-like forms, the empty string (thorough: plus 1500 PRNG arguments built from grammar fragments). The tree holds a rule with a chain of 300, and every assembly file and every chain position carries a distinct token, so the line that `update ARG` changes and the text it writes identify the resolved (file, rule id, offset); rejected arguments must exit non-zero and change nothing; `generate ARG` must equal `generate -` on the same bytes; compare must resolve like update. " +
-			"(1b) update --all and compare --all on the same tree (with and without the files whose offset is above 255): such files make the run fail and their content never lands on any rule, files outside the grammar are skipped. (1c) `generate ARG` against `generate -` on the same bytes for awkward contents (byte order mark at the start and inside, CRLF, missing final newline, empty, NUL, invalid UTF-8, directives on the first line). (2) `format ARG` with rule ids, include names and near misses: exactly the file predicted by the grammar model changes. (3) root resolution: nested roots with distinct content and distinct toolchain.yaml, -d at depth 0..4 below or beside, relative/absolute, spelled with dots, doubled and trailing separators, non-existent tails, inside regex-assembly, and no -d with various working directories; the printed regex identifies which root and which configuration were used. Non-trivial = every args/format batch and every root case with >= 2 roots.",
+			"(1b) update --all and compare --all on the same tree (with and without the files whose offset is above 255): such files make the run fail and their content never lands on any rule, files outside the grammar are skipped. (1c) `generate ARG` against `generate -` on the same bytes for awkward contents (byte order mark at the start and inside, CRLF, missing final newline, empty, NUL, invalid UTF-8, directives on the first line). (2) `format ARG` with rule ids, include names and near misses: exactly the file predicted by the grammar model changes. (3) root resolution: nested roots (a quarter of the trees with regex-assembly being a symbolic link to a directory) with distinct content and distinct toolchain.yaml, -d at depth 0..4 below or beside, relative/absolute, spelled with dots, doubled and trailing separators, non-existent tails, inside regex-assembly, and no -d with various working directories; the printed regex identifies which root and which configuration were used. Non-trivial = every args/format batch and every root case with >= 2 roots.",
 		Cases:         c18Cases,
 		Check:         c18Check,
 		Decode:        decoder[c18Case](),
